@@ -218,6 +218,10 @@ T_C17 = T("C17", "wrun_wf", "state_inv", "closed_write", "closed_readFrom", "clo
 T_C08t = T("C08trace", "W.trace_valid", "W.trace_valid_complete", "W.trace_tail", "W.trace_valid_strict", "W.strict_checker_sound",
            "R.trace_valid", "R.trace_valid_complete", "R.trace_valid_hook", "R.trace_valid_complete_hook", "R.trace_tail", "R.trace_tail_hook",
            "W.rejects_reorder", "W.rejects_uncompressed", "W.rejects_early_release", "W.rejects_lost_block", "R.rejects_reorder", "R.rejects_gap")
+T_C01rt = T("C01rt", "c01_fast_go", "c01_hc_go", "c01_fast_asm", "c01_hc_asm")
+T_C09leg = T("C09legacy", "c09_legacy", "c09_legacy_clean", "size_word_range")
+T_C15r = T("C15r", "frag_writeTo", "frag_read", "frag_any", "source_failure_writeTo", "source_failure_read", "source_failure_general")
+T_C06r = T("C15r", "c06_truncated_read", "c06_truncated_frag")
 T_C09 = T("C09", "idx_valid", "c09_writer", "c09_writer_fast", "c09_clean") + T("C09full", "hcCorrect", "c09_writer_all", "c09_clean_all", ns="C09")
 T_C19 = T("C19", "c19_accept_iff", "c19_bad_checksum", "c19_bad_block_size", "c19_size", "c19_bad_magic", "c19_spec", "c19_reader_size")
 
@@ -316,13 +320,13 @@ PROPS = {
                 rule="each case = (flag set, generated file, mode, file or stdin/stdout); every case is non-trivial; distinct = distinct case description"),
     "C02": dict(runs=[FW("fw", judge=j_c02w), FR("fr", judge=j_c02r)], theorems=T("C02", "c02_roundtrip", "c02_roundtrip_read", "c02_roundtrip_read_consumed", "c02_read_no_error", "written_lenient") + T("C09full", "c09_writer_all", ns="C09")),
     "C05": dict(runs=[FR("frmut", judge=j_c05), FR("fr", judge=j_c05)], theorems=T_C05),
-    "C06": dict(runs=[FR("frtrunc", judge=j_c06)], theorems=T_C06),
+    "C06": dict(runs=[FR("frtrunc", judge=j_c06)], theorems=T_C06 + T_C06r),
     "C07": dict(runs=[FR("frhost", judge=j_c07), FR("frmut", judge=j_c07)], theorems=T_C07 + T("C19", "c19_bad_magic") + T("C08", "R.progress", "R.terminates", "R.noleak")),
-    "C09": dict(runs=[FW("fw", judge=j_c09)], theorems=T_C09),
-    "C15": dict(runs=[FW("fwfail", judge=j_c15w), FR("frfail", judge=j_c15r)], theorems=T_C15),
+    "C09": dict(runs=[FW("fw", judge=j_c09)], theorems=T_C09 + T_C09leg),
+    "C15": dict(runs=[FW("fwfail", judge=j_c15w), FR("frfail", judge=j_c15r)], theorems=T_C15 + T_C15r),
     "C16": dict(runs=[FR("fr", judge=j_c16)], theorems=T("C16", "c16_writeTo", "c16_read", "c16_read_no_error", kind=_K64)),
     "C17": dict(runs=[FW("fwlife", judge=j_c17w), FR("fr", judge=j_c17r)], theorems=T_C17),
-    "C01": dict(runs=[dict(CMP, judge=j_c01)], theorems=T_FAST + T_HC),
+    "C01": dict(runs=[dict(CMP, judge=j_c01)], theorems=T_C01rt + T_FAST + T_HC),
     "C03": dict(runs=[dict(DEC_ASM, judge=j_c03), dict(DEC_GO, judge=j_c03), dict(GUARD_ASM, judge=j_c03), dict(GUARD_GO, judge=j_c03)], theorems=T("C04go", "c03_go") + T("C03asm", "c03_asm")),
     "C04": dict(runs=[dict(DEC_ASM, judge=j_c04), dict(DEC_GO, judge=j_c04)], theorems=T_GO + T_ASM),
     "C10": dict(runs=[dict(CMP, judge=j_c10)], theorems=T("C01fast", "c11_fast") + T("C01hc", "c11_hc")),
